@@ -885,8 +885,14 @@ func (w *Writer) appendTar(r io.Reader, lossless bool) error {
 	if lossless {
 		tr.RawAccounting = true
 	}
+	// The previous AppendTar call might have left its compression stream open.
+	// Offsets recorded below must point to the beginning of a stream so start
+	// from a new one.
+	if err := w.closeGz(); err != nil {
+		return err
+	}
 	prevOffset := w.cw.n
-	var prevOffsetUncompressed int64
+	prevOffsetUncompressed := w.uncompressedCounter.n
 	for {
 		h, err := tr.Next()
 		if err == io.EOF {
